@@ -205,9 +205,31 @@ func H18_resize() {
 	for s.HasPendingEvent() {
 		s.PollEvent()
 	}
+	// a visible cursor before the size change
+	cx0, cy0 := vsymChoice("cx0", 3), vsymChoice("cy0", 2)
+	s.ShowCursor(cx0, cy0)
+	s.Show()
+	gx, gy, gv := s.GetCursor()
+	vsymAssert(gx == cx0 && gy == cy0 && gv, "the cursor query reflects ShowCursor")
 	nw, nh := 1+vsymChoice("nw", 4), 1+vsymChoice("nh", 3)
 	s.SetSize(nw, nh)
+	if vsymChoice("how", 2) == 0 {
+		s.Show()
+	} else {
+		s.Sync()
+	}
+	gx, gy, gv = s.GetCursor()
+	vsymAssert(gv == (gx >= 0 && gy >= 0 && gx < nw && gy < nh), "after SetSize the cursor is reported visible exactly when its reported position is on the screen")
+	cx1, cy1 := vsymInt("cx1"), vsymInt("cy1")
+	vsymAssume(vsymAnd(vsymAnd(cx1 >= -1, cx1 <= 5), vsymAnd(cy1 >= -1, cy1 <= 4)))
+	s.ShowCursor(cx1, cy1)
 	s.Show()
+	gx, gy, gv = s.GetCursor()
+	in := vsymAnd(vsymAnd(cx1 >= 0, cx1 < nw), vsymAnd(cy1 >= 0, cy1 < nh))
+	vsymAssert(gv == in, "the cursor is visible exactly when ShowCursor put it on the (resized) screen")
+	if in {
+		vsymAssert(gx == cx1 && gy == cy1, "the cursor query reports the position given to ShowCursor")
+	}
 	cells, cw, ch := s.GetContents()
 	vsymAssert(cw == nw && ch == nh, "SetSize sets the physical size")
 	for y := 0; y < nh && y < 2; y++ {
